@@ -1,7 +1,7 @@
 (* C03 - A process crash at any instant leaves exactly the old or the new state.
    Model: SyncProto.v (disk with pending operations, crash images, specification of what reopening
    reconstructs, executable monitor [discipline] evaluated on the real I/O traces). *)
-From Nomt Require Import Base SyncProto SyncProto_proofs SrcFacts_proofs.
+From Nomt Require Import Base SyncProto SyncProto_proofs.
 
 (* For EVERY instance, start disk, trace accepted by the monitor, cut point and crash image
    (completed operations survive, every subset of the in-flight asynchronous writes): reopening
@@ -15,11 +15,6 @@ Theorem C03_crash_atomic : forall I d0 tr,
     (forall is_, index_of is_meta_sync tr = Some is_ -> is_ < n -> recover I img = RNew).
 Proof. exact SyncProto_proofs.crash_atomic. Qed.
 Print Assumptions C03_crash_atomic.
-
-(* the phases of Sync::sync and the order inside its steps, regenerated from the source *)
-Theorem C03_sync_phase_order : sync_order_ok = true /\ sync_order_ok2 = true.
-Proof. exact SrcFacts_proofs.sync_order_ok_true. Qed.
-Print Assumptions C03_sync_phase_order.
 
 (* ------------------------------------------------------------------------------------------ *)
 (* The recovery's own writes: the WAL redo (Wal.v mirrors bitbox/wal.rs and the redo loop of     *)
